@@ -24,14 +24,14 @@ parameters = [
     ["p4", "", 4.0, [-inf, inf], "", ""],
 ]
 form_volume = "return 1.0;"
-valid = "p1 > p2 || d >= p4"
+valid = "2.0*p1 > p2 || d >= p4"
 Iq = "return sel < 0.5 ? p1 : sel < 1.5 ? p2 : sel < 2.5 ? d : sel < 3.5 ? p4 : 7.0;"
 '''
-VALID_COQ = '(App float string "||" [App float string ">" [Var float string "p1"; Var float string "p2"]; App float string ">=" [Var float string "d"; Var float string "p4"]])'
+VALID_COQ = '(App float string "||" [App float string ">" [App float string "*" [Num float string 2%float; Var float string "p1"]; Var float string "p2"]; App float string ">=" [Var float string "d"; Var float string "p4"]])'
 
 
 def valid_py(env):
-    return bool(env["p1"] > env["p2"] or env["d"] >= env["p4"])
+    return bool(2.0 * env["p1"] > env["p2"] or env["d"] >= env["p4"])
 
 
 def to_c_top(e, rng):
@@ -217,7 +217,7 @@ def main(run):
             want_valid = valid_py(env)
             stats["invalid_points"] = stats.get("invalid_points", 0) + (0 if want_valid else 1)
             if seen_valid != want_valid:
-                run.add(Finding("C16:valid", "translation\n%s\nat %s: the base parameters are %s, so the base model's region (p1 > p2 || d >= p4) %s the point, but the reparameterised model %s it" % (
+                run.add(Finding("C16:valid", "translation\n%s\nat %s: the base parameters are %s, so the base model's region (2 p1 > p2 || d >= p4) %s the point, but the reparameterised model %s it" % (
                     text, rho, {p: env[p] for p in BASE_PARS}, "contains" if want_valid else "excludes", "evaluates" if seen_valid else "skips"),
                     dict(desc, caller=rho, translated={p: env[p] for p in BASE_PARS})))
                 continue
